@@ -265,7 +265,9 @@ AdmDist(pre, v, lat, lon, f, verdict, obs) ==
   IF Free(f) \/ IsSurface(f) \/ verdict.k = "free" THEN TRUE
   ELSE IF verdict.k = "keep" THEN v = pre.dist
   ELSE IF obs = <<>> THEN TRUE
-  ELSE IF ArcKind(obs[1], obs[2], lat, lon) = "general" THEN Len(v) = 1
+  ELSE IF ArcKind(obs[1], obs[2], lat, lon) = "general" THEN
+       \* general geometry: coarse haversine (table interpolation), tolerance 1 km + 1.5 %
+       Len(v) = 1 /\ LET d == DistMetres(ArcGeneral(obs[1], obs[2], lat, lon)) IN Abs(v[1] - d) <= 1000 + d \div 66
   ELSE Len(v) = 1 /\ Abs(v[1] - DistMetres(ArcMicroDeg(obs[1], obs[2], lat, lon))) <= 50
 
 (***************************************************************************)
